@@ -116,13 +116,16 @@ def add_controls(wn, spec):
 
 class SimRun(object):
     """Outcome of one WNTRSimulator run, tables as numpy arrays keyed by element name."""
-    __slots__ = ('ok', 'error', 'warnings', 'times', 'node', 'link', 'results', 'exception', 'error_code')
+    __slots__ = ('ok', 'error', 'warnings', 'times', 'node', 'link', 'results', 'exception', 'error_code', 'sim')
 
 
-def run_wntr(wn, hw_approx='default', tol=None, convergence_error=False, keep=False, maxiter=None):
+def run_wntr(wn, hw_approx='default', tol=None, convergence_error=False, keep=False, maxiter=None, sim=None):
+    """sim: an existing WNTRSimulator object to be re-used (default: a new one); the object used is returned as out.sim"""
     import wntr
-    sim = wntr.sim.WNTRSimulator(wn)
+    if sim is None:
+        sim = wntr.sim.WNTRSimulator(wn)
     out = SimRun()
+    out.sim = sim
     out.exception = None
     out.warnings = []
     opts = {}
